@@ -185,7 +185,8 @@ theorem R1_outerTerm {s : St κ β} (h : R1 s) (n) : R1 (outerTerm s n) := by
   · exact h
   · apply R1_rcdDispose; r1
 
-theorem R1_errorAll {s : St κ β} (h : R1 s) (e : Err) : R1 (errorAll s e) := R1_outerTerm (R1_termAll h _) _
+theorem R1_errorAll {s : St κ β} (h : R1 s) (e : Err) : R1 (errorAll s e) :=
+  R1_outerTerm (R1_termAll (R1_scalar (s' := { s with failed := true }) h rfl rfl rfl) _) _
 
 theorem R1_subscribeGroup {s : St κ β} (h : R1 s) (g : Nat) : R1 (subscribeGroup s g) := by
   unfold subscribeGroup; split
